@@ -9,7 +9,7 @@ REPO = os.environ.get('VERIF_DEV_REPO') or '/repo'
 
 REFERENCE = {'source': 'deep', 'lookupForeign': 'deep', 'lookupWritesInput': True,
              'addFieldsTop': 'shallow', 'addFieldsNested': 'shallow', 'unwindDoc': 'deep',
-             'unwindIndexed': 'deep', 'samplePops': False,
+             'unwindItem': 'deep', 'unwindIndexed': 'deep', 'samplePops': False,
              'facetSharesInput': False, 'literal': 'deep', 'constArray': 'deep',
              'outStores': 'deep'}
 
@@ -126,6 +126,31 @@ def _assigned_kind(fn, name, before):
     return _copy_kind(best.value)
 
 
+def _unwind_item(uw):
+    """which array element does an output document of `$unwind` hold?  Inside the loop over
+    `iter_array` the loop variable `field_item` is the ORIGINAL element; it must be re-assigned
+    from the per-element copy (`field_item = …(new_doc, path)[index]`, after `new_doc` was
+    deep-copied) before `set_value_by_dot(new_doc, path, field_item)` attaches it."""
+    for loop in ast.walk(uw):
+        if not (isinstance(loop, ast.For) and ast.unparse(loop.iter) == 'iter_array'):
+            continue
+        item = [ast.unparse(e) for e in loop.target.elts][-1] if isinstance(
+            loop.target, ast.Tuple) else ast.unparse(loop.target)
+        attach = [n for n in ast.walk(loop) if isinstance(n, ast.Call)
+                  and ast.unparse(n.func).endswith('set_value_by_dot')
+                  and len(n.args) == 3 and ast.unparse(n.args[2]) == item]
+        if not attach:
+            return 'none'
+        re = [n for n in ast.walk(loop) if isinstance(n, ast.Assign)
+              and any(isinstance(t, ast.Name) and t.id == item for t in n.targets)
+              and n.lineno < attach[0].lineno]
+        if re and all('new_doc' in ast.unparse(n.value) and 'index' in ast.unparse(n.value)
+                      for n in re) and _assigned_kind(uw, 'new_doc', re[0].lineno) == 'deep':
+            return 'deep'
+        return 'none'
+    return 'none'
+
+
 def _unwind_indexed(uw):
     """what does `$unwind` write an includeArrayIndex into?  Every call of the local helper that
     writes the index (`_set_index(<doc>, …)`) must be handed a deep copy: either the copy call
@@ -171,6 +196,7 @@ def extract():
              and isinstance(n.value, ast.Call) and n.value.args
              and ast.unparse(n.value.args[0]) == 'doc']
     d['unwindDoc'] = _weakest(built) if len(built) >= 2 else 'none'
+    d['unwindItem'] = _unwind_item(uw)
     d['unwindIndexed'] = _unwind_indexed(uw)
     sm = agg['_handle_sample_stage']
     # any call that edits the option dict in place
